@@ -22,6 +22,117 @@ class Token:
         return f"<{self.name}>"
 
 
+class Done:
+    """An awaitable that is already complete (synchronous await model)."""
+
+    __symex_native__ = True
+
+    def __init__(self, value=None, exc=None):
+        self.value, self.exc = value, exc
+
+    def __symex_await__(self, it):
+        if self.exc is not None:
+            raise prog(self.exc)
+        return self.value
+
+    def __await__(self):
+        if self.exc is not None:
+            raise self.exc
+        return self.value
+        yield  # pragma: no cover - makes this a generator
+
+
+class FakeTask:
+    """loop.create_task(coro): recorded; runs when the harness (or an awaiter) drives it."""
+
+    __symex_native__ = True
+
+    def __init__(self, env, coro):
+        self.env, self.coro = env, coro
+        self.cancel_requested = False
+        self.finished = False
+        self.result = None
+
+    def cancel(self):
+        self.cancel_requested = True
+        return True
+
+    def cancelled(self):
+        return False
+
+    def run(self):
+        if not self.finished:
+            self.finished = True
+            self.result = self.env.w.run_coro(self.coro)
+        return self.result
+
+    def __symex_await__(self, it):
+        return self.run()
+
+    def __await__(self):
+        return self.run()
+        yield  # pragma: no cover
+
+
+class FakeHandle:
+    __symex_native__ = True
+
+    def __init__(self, delay, fn, args):
+        self.delay, self.fn, self.args = delay, fn, args
+        self.cancelled = False
+
+    def cancel(self):
+        self.cancelled = True
+
+
+class FakeLoop:
+    """Single-threaded event loop model: run-to-await atomicity, executor jobs run inline."""
+
+    __symex_native__ = True
+
+    def __init__(self, env):
+        self.env = env
+        self.tasks = []
+        self.handles = []
+        self.connections = []
+
+    def run_in_executor(self, executor, fn, *args):
+        try:
+            return Done(self.env.w.call(fn, *args))
+        except Exception as exc:  # delivered to the awaiter
+            return Done(exc=exc)
+
+    def create_task(self, coro):
+        t = FakeTask(self.env, coro)
+        self.tasks.append(t)
+        return t
+
+    def call_later(self, delay, fn, *args):
+        h = FakeHandle(delay, fn, args)
+        self.handles.append(h)
+        return h
+
+    def create_connection(self, factory, *args, **kwargs):
+        return self.env.create_connection(factory, args, kwargs)
+
+
+class FakeTimer:
+    """threading.Timer: records; the harness fires it."""
+
+    __symex_native__ = True
+
+    def __init__(self, env, interval, fn):
+        self.env, self.interval, self.fn = env, interval, fn
+        self.started = False
+        self.cancelled = False
+
+    def start(self):
+        self.started = True
+
+    def cancel(self):
+        self.cancelled = True
+
+
 class Env:
     """Base environment: clock tokens, timegm as an uninterpreted function of the token, logging
     helpers silenced."""
@@ -40,6 +151,17 @@ class Env:
         self.add(calendar.timegm, self.timegm, "calendar.timegm")
         self.add(time.sleep, self.sleep, "time.sleep")
         self.add(timeit.default_timer, lambda a, k: 0.0, "mysensors.task.timer")
+        import asyncio
+        import threading
+        self.timers = []
+        self.add(threading.Timer, self.make_timer, "threading.Timer")
+        self.on_async_sleep = None
+        self.loop = FakeLoop(self)
+        self.async_sleeps = []
+        self.cancel_sleep_at = None  # index of the asyncio.sleep call that gets cancelled
+        self.add(asyncio.get_running_loop, lambda a, k: self.loop, "asyncio.get_running_loop")
+        self.add(asyncio.sleep, self.async_sleep, "asyncio.sleep")
+        self.add(asyncio.wait_for, lambda a, k: a[0], "asyncio.wait_for")
         try:
             from voluptuous.humanize import humanize_error
             import mysensors
@@ -68,6 +190,24 @@ class Env:
     def sleep(self, a, k):
         self.sleeps.append(a[0])
         return None
+
+    def make_timer(self, a, k):
+        t = FakeTimer(self, a[0], a[1])
+        self.timers.append(t)
+        return t
+
+    def async_sleep(self, a, k):
+        import asyncio
+        i = len(self.async_sleeps)
+        self.async_sleeps.append(a[0])
+        if self.on_async_sleep is not None:
+            self.on_async_sleep(i)
+        if self.cancel_sleep_at is not None and i >= self.cancel_sleep_at:
+            return Done(exc=asyncio.CancelledError())
+        return Done(None)
+
+    def create_connection(self, factory, args, kwargs):
+        raise prog(OSError("no connection scripted"))
 
     @contextlib.contextmanager
     def installed(self):
